@@ -559,6 +559,17 @@ func genQ(r *rand.Rand, kind string, i int) (qCase, []string) {
 	for w := 0; w < nw; w++ {
 		c.Writers = append(c.Writers, genSpecs(r, 2+r.Intn(12), big && w == 0))
 	}
+	if len(c.Rates) > 0 {
+		// with rate changes the burst varies over the run: a packet of exactly burst size (1500 bytes) would be
+		// blocked or not depending on the instant it reaches the head; keep such cases to the constant-rate runs
+		for w := range c.Writers {
+			for k := range c.Writers[w] {
+				if c.Writers[w][k].PayLen > 1400 {
+					c.Writers[w][k].PayLen = 1400
+				}
+			}
+		}
+	}
 
 	return c, b
 }
